@@ -140,6 +140,12 @@ class Run(object):
             self.step({"op": "rerun", "tasks": None}, _ctl=True)
         while self.controls and self.controls[0][0] <= self.nsteps:
             pos, kind = self.controls.pop(0)
+            if "+" in kind:
+                # compound placement: several requests back to back (e.g. cancel right after a resume, so that
+                # the request is made while the workflow reports resuming)
+                for j, k2 in enumerate(kind.split("+")):
+                    self.controls.insert(j, [pos, k2])
+                continue
             s = d.status()
             if kind == "rerun" and s != st.FAILED:
                 self._pending_rerun = True
